@@ -117,7 +117,7 @@ def compare_pair(ctx, kind, a: Mol, b: Mol, rng):
     try:
         same = iso.isomorphic(a.colors(), a.edge_pairs(), b2.colors(), b2.edge_pairs())
     except iso.Inconclusive:
-        ctx.inconclusive.append(f"oracle budget on {kind}")
+        ctx.hard_inconclusive.append(f"oracle budget on {kind}")
         return
     if not same:
         ctx.count(f"cov_{kind}_nonisomorphic")
